@@ -223,7 +223,9 @@ def mcos(ctx, a, np_style=False):
 def msqrt(ctx, a, np_style=False, nonneg=False):
     if type(a) is not Sym:
         return np.sqrt(a) if np_style else math.sqrt(a)
-    t = z3.simplify(real_term(a))
+    from .poly import canon
+
+    t = z3.simplify(canon(z3.simplify(real_term(a))))  # canonical polynomial: equal radicands become identical terms
     if not nonneg and ctx.branch(t < 0):
         if np_style:
             raise Unsupported("numpy sqrt of a negative number (nan outside the model)")
